@@ -169,6 +169,37 @@ def check_integer_inputs(run, ld):
                 run.violation("integer-typed inputs give other values than the same numbers as floats", dict(w=str(w_), depth=str(d_)))
 
 
+def check_gravity(run, drv, ld, thorough):
+    """another gravitational acceleration (Moon, Mars, feet, a lab fluid), by keyword and by position"""
+    rng = run.rng
+    for case in range(120 if thorough else 16):
+        g = rng.choice([1.62, 3.71, 24.79, 32.17, 0.5])
+        m = rng.choice([1, 3, 6])
+        w = np.exp(np.array([rng.uniform(math.log(0.05), math.log(8.0)) for _ in range(m)]))
+        d = np.array([rng.choice([np.inf, math.exp(rng.uniform(math.log(0.2), math.log(500.0)))]) for _ in range(m)])
+        run.case("gravity", key=(case, g))
+        with warnings.catch_warnings():
+            warnings.simplefilter("ignore")
+            if case % 2 == 0:
+                k = np.asarray(ld.inverse_intrinsic_dispersion_relation(w.copy(), d.copy(), grav=g), dtype=float)
+            else:
+                k = np.asarray(ld.inverse_intrinsic_dispersion_relation(w.copy(), d.copy(), g), dtype=float)
+        with np.errstate(all="ignore"):
+            wk = np.where(np.isfinite(d), np.sqrt(g * k * np.tanh(k * np.where(np.isfinite(d), d, 1.0))), np.sqrt(g * k))
+        info = dict(g=g, w=w.tolist(), depth=d.tolist(), k=k.tolist())
+        if k.shape != (m,) or np.any(~(k > 0)) or np.any(~(np.abs(wk - w) <= 1e-3 * w)):
+            run.violation("with another gravitational acceleration the wavenumber misses sqrt(g k tanh(k d)) = w", info)
+            continue
+        ans = drv.ask(f"disp solve {bits(g)} {bits(1e-3)} 10 " + " ".join(f"{bits(a)} {dep_tok(b)}" for a, b in zip(w, d)))
+        km = np.array([from_bits(t) for t in ans.split(" | ")[0].split()])
+        if np.nanmax(np.abs(km - k) / np.abs(k)) > 3e-3:
+            run.mismatch("solve_gravity", dict(info, model=km.tolist()))
+        cg = np.asarray(ld.intrinsic_group_velocity(k, d, g), dtype=float)
+        wkk = np.asarray(ld.intrinsic_dispersion_relation(k, d, g), dtype=float)
+        if not np.allclose(wkk, wk, rtol=1e-12) or np.any(~(cg > 0)) or np.any(cg > 1.0000001 * wk / k) or np.any(cg < 0.4999999 * wk / k):
+            run.violation("with another gravitational acceleration dispersion relation / group velocity are inconsistent", info)
+
+
 def check_spectrum(run, ld, thorough):
     from . import spectra as sp
     rng = run.rng
@@ -232,6 +263,8 @@ def main(prop, tier, seed):
             check_solver(run, drv, ld, thorough)
         with common.guard(run, "point functions"):
             check_point_functions(run, drv, ld, thorough)
+        with common.guard(run, "other gravity"):
+            check_gravity(run, drv, ld, thorough)
         with common.guard(run, "integer-typed inputs"):
             check_integer_inputs(run, ld)
         with common.guard(run, "spectrum level"):
